@@ -77,6 +77,12 @@ def addAll (s : BmState) : List (Bm × Option Nat) → BmState
   | [] => s
   | (b, p) :: rest => addAll (addBookmark s b p).1 rest
 
+/-- `bookmark.page = objectid` after the recursive call (`none` = the call did not finish) -/
+def setPage (id : Nat) (r : Option (BmTable × ObjId)) : Option (BmTable × ObjId) :=
+  match r with
+  | none => none
+  | some (t', oid) => some (t'.modify id (fun x => { x with page := oid }), oid)
+
 /-- `Document::recursive_fix_pages` -/
 def fixPages : Nat → BmTable → List Nat → Bool → Option (BmTable × ObjId)
   | _, t, [], _ => some (t, (0, 0))
@@ -85,23 +91,15 @@ def fixPages : Nat → BmTable → List Nat → Bool → Option (BmTable × ObjI
     match t.get id with
     | none => some (t, (0, 0))
     | some b =>
-      let children := b.children
-      let step1 : Option (BmTable × ObjId) :=
-        if b.page.1 = 0 ∧ ¬ children.isEmpty then
-          match fixPages f t children false with
-          | none => none
-          | some (t', oid) => some (t'.modify id (fun x => { x with page := oid }), oid)
-        else some (t, b.page)
-      match step1 with
-      | none => none
-      | some (t1, page) =>
-        if ¬ first ∧ page.1 ≠ 0 then some (t1, page)
+      -- `if 0 == page.0 && !children.is_empty() { … bookmark.page = objectid; page = objectid }`
+      (if b.page.1 = 0 ∧ b.children.isEmpty = false then setPage id (fixPages f t b.children false)
+       else some (t, b.page)).bind fun s1 =>
+        -- `if !first && 0 != page.0 { return page; }`
+        if first = false ∧ s1.2.1 ≠ 0 then some s1
         else
-          let step2 : Option BmTable :=
-            if first ∧ ¬ children.isEmpty then (fixPages f t1 children first).map (·.1) else some t1
-          match step2 with
-          | none => none
-          | some t2 => fixPages f t2 rest first
+          -- `if first && !children.is_empty() { self.recursive_fix_pages(&children[..], first); }`
+          (if first = true ∧ b.children.isEmpty = false then (fixPages f s1.1 b.children first).map (·.1)
+           else some s1.1).bind fun t2 => fixPages f t2 rest first
 
 /-- `Document::adjust_zero_pages` -/
 def adjustZeroPages (fuel : Nat) (s : BmState) : Option BmState :=
